@@ -25,6 +25,8 @@ type env struct {
 	genBin   string
 	dep      string // the checked-in manifest, given to the generator as a dependency manifest
 	goEnv    []string
+	goCache  string // the Go build cache in use (failures that mention it are not about the generated code)
+	goRoot   string
 	goSum    []byte
 	runs     int
 	setupErr string
@@ -56,6 +58,34 @@ func (e *env) run(dir string, timeout time.Duration, extraEnv []string, name str
 	return out.String(), err
 }
 
+// goTool runs the go command in dir. A failure whose output names the build cache directory or places an error in
+// the standard library (entries vanish when the cache is dropped or trimmed by somebody else while we build) or in a
+// source file of the repository module itself (someone is rewriting the shared tree at this moment) says nothing
+// about the generated code: such a run is
+// repeated a few times before its verdict is taken. A compile error of generated code names neither.
+func (e *env) goTool(dir string, args ...string) (string, error) {
+	for attempt := 0; ; attempt++ {
+		txt, err := e.run(dir, 10*time.Minute, nil, "go", args...)
+		if err == nil || attempt == 3 || !e.environmental(txt) {
+			return txt, err
+		}
+		time.Sleep(time.Duration(attempt+1) * 3 * time.Second)
+	}
+}
+
+func (e *env) environmental(out string) bool {
+	if e.goCache != "" && strings.Contains(out, e.goCache+"/") || strings.Contains(out, " is not in std") {
+		return true
+	}
+	for _, l := range strings.Split(out, "\n") {
+		l = strings.TrimSpace(l)
+		if strings.HasPrefix(l, e.repoMod+"/") || e.goRoot != "" && strings.HasPrefix(l, e.goRoot+"/") {
+			return true
+		}
+	}
+	return false
+}
+
 func newEnv() (*env, error) {
 	e := &env{repo: repoDir()}
 	e.repoMod = filepath.Join(e.repo, repoSubdir)
@@ -74,6 +104,12 @@ func newEnv() (*env, error) {
 		e.goEnv = append(e.goEnv, kv)
 	}
 	e.goEnv = append(e.goEnv, "GOFLAGS=-mod=mod", "GOPROXY=off", "GOSUMDB=off", "GOTOOLCHAIN=local", "CGO_ENABLED=0")
+	if out, err := e.run(e.scratch, time.Minute, nil, "go", "env", "GOCACHE"); err == nil {
+		e.goCache = strings.TrimRight(strings.TrimSpace(out), "/")
+	}
+	if out, err := e.run(e.scratch, time.Minute, nil, "go", "env", "GOROOT"); err == nil {
+		e.goRoot = strings.TrimRight(strings.TrimSpace(out), "/")
+	}
 	e.goSum, err = os.ReadFile(filepath.Join(e.repoMod, "go.sum"))
 	if err != nil {
 		return e, err
@@ -87,7 +123,7 @@ func newEnv() (*env, error) {
 	must(os.WriteFile(filepath.Join(gb, "go.sum"), e.goSum, 0o644))
 	must(os.WriteFile(filepath.Join(gb, "main.go"), []byte(genMainSrc), 0o644))
 	e.genBin = filepath.Join(e.scratch, "c12gen")
-	if out, err := e.run(gb, 10*time.Minute, nil, "go", "build", "-o", e.genBin, "."); err != nil {
+	if out, err := e.goTool(gb, "build", "-o", e.genBin, "."); err != nil {
 		return e, fmt.Errorf("the generator driver does not build against the repository: %v\n%s", err, tail(out, 1500))
 	}
 	// warm the build cache with the runtime packages every generated package imports
@@ -96,7 +132,7 @@ func newEnv() (*env, error) {
 	must(os.WriteFile(filepath.Join(w, "go.mod"), []byte(goModText("c12warm", e.repoMod)), 0o644))
 	must(os.WriteFile(filepath.Join(w, "go.sum"), e.goSum, 0o644))
 	must(os.WriteFile(filepath.Join(w, "w.go"), []byte(warmSrc), 0o644))
-	if out, err := e.run(w, 10*time.Minute, nil, "go", "vet", "."); err != nil {
+	if out, err := e.goTool(w, "vet", "."); err != nil {
 		return e, fmt.Errorf("the runtime packages do not build: %v\n%s", err, tail(out, 1500))
 	}
 	return e, nil
@@ -331,14 +367,14 @@ func (e *env) buildTree(mod string, manifest []byte) (buildErr, vetErr string, p
 		rel, _ := filepath.Rel(mod, d)
 		pkgs = append(pkgs, "./"+rel)
 	}
-	if txt, err := e.run(mod, 10*time.Minute, nil, "go", append([]string{"build"}, pkgs...)...); err != nil {
+	if txt, err := e.goTool(mod, append([]string{"build"}, pkgs...)...); err != nil {
 		buildErr = compileErrClass(txt, mod)
 		if buildErr == "" {
 			buildErr = err.Error()
 		}
 		return buildErr, "", len(dirs)
 	}
-	if txt, err := e.run(mod, 10*time.Minute, nil, "go", append([]string{"vet"}, pkgs...)...); err != nil {
+	if txt, err := e.goTool(mod, append([]string{"vet"}, pkgs...)...); err != nil {
 		vetErr = compileErrClass(txt, mod)
 		if vetErr == "" {
 			vetErr = err.Error()
